@@ -280,7 +280,7 @@ impl Prop for C11 {
         1900
     }
     fn cases(&self, t: Tier) -> usize {
-        t.pick(100_000, 4_000_000)
+        t.pick(500_000, 4_000_000)
     }
     fn generate(&self, t: &mut Tape) -> Case {
         let spelling = super::c02::take_spelling(t, 40);
